@@ -166,6 +166,16 @@ def oracle_clean(f, ctxv):
             if o == 'cbEnter':
                 ctxv('close callback invoked again after it had completed')
                 break
+    # library tasks must wind down at once: after the close callback returned no task keeps taking steps
+    xi = [i for i, (ev, obs) in enumerate(res['log']) if 'cbExit' in obs or ('tclose' in obs and not f.cfg['has_cb'])]
+    if xi:
+        late = {}
+        for ev, _ in res['log'][xi[0] + 1:]:
+            if isinstance(ev, list) and ev[0] == 'run' and ev[1] in LIB:
+                late[ev[1]] = late.get(ev[1], 0) + 1
+        busy = {k: v for k, v in late.items() if v > 1}
+        if busy:
+            ctxv(f'library tasks kept running after the session had closed (steps after the close completed: {busy})')
     started = {tuple(ev) for ev, _ in res['log'] if isinstance(ev, list) and ev[0] in ('recv', 'login')}
     for k, u in started:
         if u not in f.rets():
